@@ -43,7 +43,8 @@ def build(params):
     opt, dbg = scen.pick_config(r)
     return {'property': PROP, 'run_seed': s, 'source': sc['source'],
             'config': {'opt': opt, 'dbg': dbg,
-                       'signal_mode': r.choice(('call', 'raise'))},
+                       'signal_mode': r.choice(('call', 'raise')),
+                       'impl': r.choice(('sim', 'sim', 'sim', 'dumb'))},
             'text': sc['text'], 'ast': sc['ast'], 'script': sc['script'],
             'meta': {k: v for k, v in sc['meta'].items() if k in ('plant', 'pos')},
             'plan': None, 'enumerate': True,
@@ -91,7 +92,8 @@ def one_run(mi, scn, plan, res, base=None):
     cfg = scn['config']
     budget = CAP if base is None else base['ticks'] * 8 + 2000
     sim = Sim(mi, scn['script'], plan, budget=budget,
-              signal_mode=cfg.get('signal_mode', 'call'))
+              signal_mode=cfg.get('signal_mode', 'call'),
+              impl_kind=cfg.get('impl', 'sim'))
     info = {'armed': None, 'd0': None, 'at': None, 'op': None, 'hist': None,
             'depth': None, 'frames': None}
     kinds = [f['kind'] for f in plan]
@@ -145,6 +147,7 @@ def one_run(mi, scn, plan, res, base=None):
     res.evals += 1
     res.ticks += out['ticks']
     res.sim_seconds += sim.impl.sim_seconds
+    res.count('runs_on_' + cfg.get('impl', 'sim') + '_peripherals')
     for k, n in sim.fired.items():
         res.count('fired_' + k, n)
     fired_any = bool(sim.fired)
@@ -287,7 +290,7 @@ def execute(scn):
     for j in range(1, min(n_in, 8) + 1):
         if only and 'F4' not in only:
             break
-        for mode in ('none',):
+        for mode in (('none',) if cfg.get('impl', 'sim') == 'sim' else ('eof',)):
             one_run(mi, scn, [{'kind': 'F4', 'at': j, 'mode': mode}], res, base)
     # two faults in one run: a failure and, later, an interrupt
     if D >= 2 and not only:
